@@ -141,6 +141,18 @@ def get_function(qualname):
         if m is not None: return k.module, cls, m
     return mod, cls, fn
 
+_PLAIN_DECORATORS = ("property", "staticmethod", "classmethod")
+
+def foreign_decorators(fn):
+    """decorators of a FunctionDef other than property / staticmethod / classmethod / <name>.setter: such a wrapper (a cache, a retry, ...)
+    runs instead of the body the contract was generated from"""
+    out = []
+    for d in getattr(fn, "decorator_list", []):
+        t = ast.unparse(d)
+        if t in _PLAIN_DECORATORS or t.endswith(".setter") or t.endswith(".getter"): continue
+        out.append(t)
+    return out
+
 def source_hash(mod, fn):
     seg = ast.get_source_segment(mod.text, fn)
     return hashlib.sha256(seg.encode()).hexdigest()[:16], fn.lineno, fn.end_lineno
